@@ -82,7 +82,7 @@ def assign(rng, s, scale):
         for i, (m, p) in enumerate(zip(s.mols, pct)):
             m.mixture = ("abs", p / 100.0 * M) if i == k else ("pct", p)
     for m in s.mols:
-        m.mfmt = 4
+        m.mfmt = rng.randrange(6)
     return [p / 100.0 for p in pct], M
 
 
